@@ -29,11 +29,35 @@ def drv(text):
     return lib, out
 
 
-def native_check(text):
+class _Hang(BaseException):
+    pass
+
+
+def _alarm(signum, frame):
+    raise _Hang()
+
+
+def native_check(text, seconds=20):
+    """replay on the real code under a watchdog: not returning within `seconds` is reported as a hang"""
+    import signal
+    old = signal.signal(signal.SIGALRM, _alarm)
+    signal.alarm(seconds)
+    try:
+        return _native_check(text)
+    except _Hang:
+        return f"did not return within {seconds} s (hang)"
+    finally:
+        signal.alarm(0)
+        signal.signal(signal.SIGALRM, old)
+
+
+def _native_check(text):
     import logging
     logging.disable(logging.CRITICAL)
     try:
         lib = bibtexparser.parse_string(text)
+    except _Hang:
+        raise
     except BaseException as e:  # noqa
         return f"parse_string raised {type(e).__name__}: {str(e)[:200]}"
     if not isinstance(lib, Library):
@@ -43,6 +67,8 @@ def native_check(text):
             return f"failed block without error/raw: {type(b).__name__}"
     try:
         out = bibtexparser.write_string(lib)
+    except _Hang:
+        raise
     except BaseException as e:  # noqa
         return f"write_string raised {type(e).__name__}: {str(e)[:200]}"
     if not isinstance(out, str):
@@ -115,6 +141,19 @@ def task(parts, label):
     return rec.result(label=label, worlds=len(worlds), maxrec=max([w.maxrec[0] for w in worlds] or [0]))
 
 
+def task_strings(kinds):
+    """'s' = @string{N = R}, 'f' = @x{k<i>, t = R}: every N and R is one symbolic character over {a, A}"""
+    parts = []
+    n = 0
+    for kd in kinds:
+        if kd == "s":
+            parts += [("lit", "@string{"), ("sym", 1, "aA"), ("lit", " = "), ("sym", 1, "aA"), ("lit", "}\n")]
+        else:
+            parts += [("lit", "@x{k%d, t = " % n), ("sym", 1, "aA"), ("lit", "}\n")]
+            n += 1
+    return task(parts, "strings-" + kinds)
+
+
 BLOCKS = {
     "entry": "@a{k,\n t = {x},\n u = \"y\"\n}",
     "keyonly": "@a{k}",
@@ -145,6 +184,7 @@ def main():
     chk.bounds = {"alphabet": SIGMA_S, "pure garbage: every text of length": f"0..{LG}",
                   "templates": f"B1 + X + B2 / B1 + X with B1 in {sorted(BLOCKS)}, B2 in entry/string, X every text of length 1..{LT}",
                   "inside bodies": f"X of length 1..{LI} inside the body of @comment / @preamble / @string / a field value (bare, braced, quoted) / the key position",
+                  "string names": "documents of 2-4 @string / entry blocks whose @string names and bare references are symbolic over {a, A}",
                   "recursion bound": f"no repo function more than {MAXREC} times on the stack", "step limit per world": 2_000_000}
     chk.assumptions = ["alphabet as in C03 (one representative per class of the mark regex)",
                        "sizes 10^3..10^5 are not executed symbolically: the claim for them rests on the recursion-depth and step-limit obligations (any input-driven recursion found is confirmed by a pumped replay on the real code)",
@@ -165,6 +205,9 @@ def main():
     for nm, (pre, post) in INSIDE.items():
         for L in range(LI, 0, -1):
             chk.add_task(f"inside-{nm}-X{L}", task, parts=[("lit", pre), ("sym", L, SIGMA_S), ("lit", post)], label=f"inside-{nm}")
+    # @string names and references symbolic over {a, A}: self reference, alias chains, names differing in case only
+    for kinds in ("ssf", "sfs", "sf", "ssff"):
+        chk.add_task(f"strings-{kinds}", task_strings, kinds=kinds)
     chk.run()
 
 
